@@ -322,8 +322,10 @@ def run(ck):
     ck.apalache("AP_MulIfma", 2, "AVX-512 IFMA mul / square (IfmaField.tla's structure, half-products abstracted): no 64-bit wrap and value = x*y mod p for ALL legal multiplicands (limbs < 2^52)")
     ck.apalache("AP_MulIfma_neg", 2, "kept counterexample: the part of a folded word above 2^52 forgotten", expect_violation=True)
     ck.apalache("AP_Mul2625_neg", 2, "kept counterexample: x with b < 3.5 overflows a 64-bit accumulator", expect_violation=True)
+    ck.apalache("AP_Sq51", 2, "u64 pow2k round: value = the true square, accumulators < 2^128, carries < 2^64, post-bounds re-establish the precondition, for all limbs < 2^54", cinit="CInit54")
+    ck.apalache("AP_Sq51", 2, "kept counterexample: limbs < 2^60 overflow", cinit="CInit60", expect_violation=True, inv="InvBounds")
     ck.apalache("AP_Mul51", 2, "u64 mul contract (value, accumulators < 2^128, carries < 2^64, post-bounds) for all limbs < 2^54", cinit="CInit54")
-    ck.apalache("AP_Mul51", 2, "kept counterexample: the contract fails for limbs < 2^55", cinit="CInit55", expect_violation=True)
+    ck.apalache("AP_Mul51", 2, "kept counterexample: the contract fails for limbs < 2^55", cinit="CInit55", expect_violation=True, inv="InvBounds")
     # --- conformance
     backends = ALL_BACKENDS
     bins = build_many([(b, True, "release", ()) for b in backends], jobs=3)
